@@ -74,6 +74,10 @@ end Bng.Drv.NexusDrv
     alloc s3                     => ok <hex> | nosub | nopool | nopoolrec | nohosts
     release s3                   => ok | nosub
     lookup s3                    => <hex> | none
+    fault put on|off             => ok            (the store refuses / accepts writes of subscriber records; while it
+                                                   refuses, alloc / release are the model's allocF / releaseF and a
+                                                   `sub` changes nothing and answers `error`)
+    audit <n>                    => s1=<cache>|<store>,…   (<hex> | - no address | x no record; monitor `store-agree`)
 
   Monitor: the generic pool monitor, with the range of an assignment judged against the pool record the
   address was computed from (a holder that asks again keeps its address even if the record was edited).
@@ -86,6 +90,8 @@ structure St where
   mon : PoolSpec.Mon := []
   /-- subscriber ↦ (pool record its address was computed from, hash of its id) -/
   origin : AMap Nat (Cfg × Nat) := []
+  /-- the store refuses writes of subscriber records -/
+  fault : Bool := false
 
 def showObs : Client.Obs → String
   | .okAddr a => s!"ok {toHex a}"
@@ -95,6 +101,7 @@ def showObs : Client.Obs → String
   | .nopoolrec => "nopoolrec"
   | .nohosts => "nohosts"
   | .none => "none"
+  | .error => "error"
 
 def parseOpt (tag : Char) (t : String) : Option (Option Nat) :=
   if t == "-" then some none else (parseTagged tag t).map some
@@ -111,6 +118,30 @@ def parseOp (toks : List String) : Option Client.Op :=
   | ["release", k] => (parseTagged 's' k).map .release
   | ["lookup", k] => (parseTagged 's' k).map .lookup
   | _ => none
+
+/-- one table of subscriber records, as the audit prints it -/
+def showRec (t : AMap Nat Client.Sub) (k : Nat) : String :=
+  match AMap.lookup t k with
+  | none => "x"
+  | some sub => match sub.addr with
+    | some a => toHex a
+    | none => "-"
+
+def auditLine (m : Client.State) (n : Nat) : String :=
+  if n = 0 then "-" else
+  ",".intercalate ((List.range n).map fun i => s!"s{i + 1}={showRec m.subs (i + 1)}|{showRec m.store (i + 1)}")
+
+/-- a store write failure leaves memory and store in agreement: cache and store carry the same address for every
+    subscriber (judged on the implementation's audit line) -/
+def auditCheck (impl : String) : List (String × String × String) :=
+  if impl == "-" then [] else
+  (impl.splitOn ",").filterMap fun item =>
+    match item.splitOn "=" with
+    | [k, rest] => match rest.splitOn "|" with
+      | [c, st] => if c == st then none else
+          some ("store-agree", "none", s!"{k}: the client's cache says {c}, the store's record says {st}")
+      | _ => some ("store-agree", "none", s!"unreadable audit row {item}")
+    | _ => some ("store-agree", "none", s!"unreadable audit row {item}")
 
 def geoOf (c : Cfg) : PoolSpec.Geo := { lo := c.net + 1, step := 1, units := c.numHosts, totalReported := 0 }
 
@@ -131,10 +162,32 @@ def currentCfg (m : Client.State) (k : Nat) : Option Cfg :=
 def step (st : St) (toks : List String) (impl : String) : St × LineResult :=
   match toks with
   | ["new"] => ({ model := some Client.init }, { modelObs := "ok" })
+  | ["fault", "put", f] =>
+    if st.model.isSome && (f == "on" || f == "off") then ({ st with fault := f == "on" }, { modelObs := "ok" })
+    else (st, { modelObs := "badop" })
+  | ["audit", n] =>
+    match st.model, n.toNat? with
+    | some m, some n => (st, { modelObs := auditLine m n, viols := auditCheck impl })
+    | _, _ => (st, { modelObs := "badop" })
   | _ =>
     match st.model, parseOp toks with
-    | some m, some op =>
+    | some _, some (.sub _ _ _ _) =>
+      if st.fault then
+        -- the store refuses the provisioning write: nothing changes
+        (st, { modelObs := "error" })
+      else stepOp st toks impl
+    | _, _ => stepOp st toks impl
+where
+  stepOp (st : St) (toks : List String) (impl : String) : St × LineResult :=
+    match st.model, parseOp toks with
+    | some m, some op0 =>
+      -- while the store refuses subscriber writes the two calls are the model's allocF / releaseF
+      let op := match st.fault, op0 with
+        | true, .alloc k => Client.Op.allocF k
+        | true, .release k => Client.Op.releaseF k
+        | _, o => o
       let (m', o) := Client.step m op
+      let op := op0
       let shown := match op, o with
         | .lookup _, .okAddr a => toHex a
         | _, _ => showObs o
